@@ -13,10 +13,23 @@ fn pa_of(a: &[u8]) -> Result<BlockHashPositionArray, String> {
 }
 
 fn via_pa(pa: &BlockHashPositionArray, a: &[u8], b: &[u8]) -> Result<bool, String> {
+    // a panic escaping from the library through any call below is a violation of this case, not a crash
+    guard_case(|| via_pa_unguarded(pa, a, b))
+}
+
+fn via_pa_unguarded(pa: &BlockHashPositionArray, a: &[u8], b: &[u8]) -> Result<bool, String> {
     let exp = refmodel::has_common_7gram(a, b);
     let got = guarded(|| pa.has_common_substring(b))?;
     if got != exp {
         return Err(format!("has_common_substring = {} but the naive scan says {}", got, exp));
+    }
+    // the pre-filter as the scoring functions apply it: for normalized strings of at least 7 symbols the raw score
+    // is non-zero exactly when there is a common substring
+    if a.len() >= 7 && b.len() >= 7 && refmodel::is_normalized(a) && refmodel::is_normalized(b) {
+        let sc = guarded(|| pa.score_strings_raw(b))?;
+        if (sc != 0) != exp {
+            return Err(format!("score_strings_raw = {} but the naive scan says common substring = {}", sc, exp));
+        }
     }
     Ok(got)
 }
@@ -24,6 +37,11 @@ fn via_pa(pa: &BlockHashPositionArray, a: &[u8], b: &[u8]) -> Result<bool, Strin
 /// One ordered pair through every route (position array; comparison target's
 /// block hash accessors; the candidate test at equal block sizes).
 pub fn check_pair(a: &[u8], b: &[u8]) -> Result<bool, String> {
+    // a panic escaping from the library through any call below is a violation of this case, not a crash
+    guard_case(|| check_pair_unguarded(a, b))
+}
+
+fn check_pair_unguarded(a: &[u8], b: &[u8]) -> Result<bool, String> {
     let pa = pa_of(a)?;
     let got = via_pa(&pa, a, b)?;
     if refmodel::is_normalized(a) && refmodel::is_normalized(b) {
@@ -173,6 +191,51 @@ pub fn run(ctx: &Ctx) -> Report {
     });
     acc.into_report(&mut rep, "B2_window_planted_at_every_offset_pair_len_5_to_8");
 
+    // B4: decoys.  b = [a stretch of a's symbols that shares no window with a] [a symbol that is not in a]
+    // [a real window of a] (and the mirror), every decoy length 7..=12, every window position, separator present / absent
+    let acc = par_shards(58, |idx, acc| {
+        let la = 7 + idx;
+        let a: Vec<u8> = (0..la).map(|i| (1 + i % 62) as u8).collect();
+        let pa = match pa_of(&a) {
+            Ok(p) => p,
+            Err(_) => return,
+        };
+        for dl in 7..=12usize.min(la) {
+            // decoy: the first dl symbols of a, reversed (no common 7-gram with a, whose symbols ascend)
+            let decoy: Vec<u8> = a[..dl].iter().rev().copied().collect();
+            for oa in 0..=(la - 7) {
+                for sep in [Some(0u8), Some(63), None] {
+                    for mirror in [false, true] {
+                        for m in [6usize, 7] {
+                            let win = &a[oa..oa + m];
+                            let mut b: Vec<u8> = vec![];
+                            let (first, second): (&[u8], &[u8]) = if mirror { (win, &decoy) } else { (&decoy, win) };
+                            b.extend_from_slice(first);
+                            if let Some(s) = sep {
+                                b.push(s);
+                            }
+                            b.extend_from_slice(second);
+                            if b.len() > 64 {
+                                continue;
+                            }
+                            acc.evaluations += 1;
+                            acc.nontrivial += 1;
+                            match via_pa(&pa, &a, &b) {
+                                Ok(true) => acc.count("answers_true", 1),
+                                Ok(false) => acc.count("answers_false", 1),
+                                Err(e) => acc.violation(format!("decoy la={} dl={} oa={} sep={:?} mirror={} m={}", la, dl, oa, sep, mirror, m), e, case(&a, &b)),
+                            }
+                        }
+                    }
+                }
+            }
+        }
+        if idx == 10 {
+            acc.sample(json!({"decoy_family_a_len": la}));
+        }
+    });
+    acc.into_report(&mut rep, "B4_decoy_stretch_separator_real_window");
+
     // B3: repeated / overlapping occurrences and low-entropy strings
     let totals: Vec<usize> = if thorough { (0..=64).collect() } else { vec![6, 7, 8, 13, 14, 15, 31, 32, 63, 64] };
     let mut low: Vec<Vec<u8>> = vec![];
@@ -199,7 +262,7 @@ pub fn run(ctx: &Ctx) -> Report {
     rep.set("exhaustive", true);
     rep.set(
         "rule",
-        "B1: ALL ordered pairs over alphabets of size 2 (|a|<=10,|b|<=12; thorough 11/14) and 3 (7/8; thorough 8/9); B2: a = run-free ramp of every length la<=64, b = junk over two symbols not in a, of every length lb<=64, with a copy of a[oa..oa+m] planted at ob for EVERY (oa, ob) and m in {5,6,7,8} (m<7 are near-misses); B3: all pairs of two-run and periodic strings (repeated, overlapping occurrences).  Oracle: naive scan.  The position array used for each left string is a re-used object (it held a string of the right-hand family before; every third one was emptied in between), and the comparison targets are re-initialised objects that held the other string first.  A strided subset also goes through FuzzyHashCompareTarget (block_hash_1/2 accessors and is_comparison_candidate at equal, half and double block size).  Non-trivial = both strings have at least 7 symbols.",
+        "B4: b = a reversed stretch of a's own symbols (7..12, no shared window) + an optional symbol that is not in a + a real (7) or near-miss (6) window of a at every offset, and the mirror order, for every |a| in 7..=64.  Every position-array answer is also compared with the scoring route (score_strings_raw non-zero <=> common substring, for normalized strings).  B1: ALL ordered pairs over alphabets of size 2 (|a|<=10,|b|<=12; thorough 11/14) and 3 (7/8; thorough 8/9); B2: a = run-free ramp of every length la<=64, b = junk over two symbols not in a, of every length lb<=64, with a copy of a[oa..oa+m] planted at ob for EVERY (oa, ob) and m in {5,6,7,8} (m<7 are near-misses); B3: all pairs of two-run and periodic strings (repeated, overlapping occurrences).  Oracle: naive scan.  The position array used for each left string is a re-used object (it held a string of the right-hand family before; every third one was emptied in between), and the comparison targets are re-initialised objects that held the other string first.  A strided subset also goes through FuzzyHashCompareTarget (block_hash_1/2 accessors and is_comparison_candidate at equal, half and double block size).  Non-trivial = both strings have at least 7 symbols.",
     );
     rep
 }
